@@ -213,3 +213,15 @@ pub mod sync {
         }
     }
 }
+
+/// Static facts of a `MockFn` as the runtime sees them: trait name, method name,
+/// `has_default_impl`, `partial_by_default`.
+pub fn mock_fn_facts<F: crate::MockFn>() -> (&'static str, &'static str, bool, bool) {
+    let info = F::info();
+    (
+        info.path.trait_ident(),
+        info.path.method_ident(),
+        info.has_default_impl,
+        info.partial_by_default,
+    )
+}
